@@ -5,6 +5,7 @@ import ckprop
 import genck
 import implck
 from ckprop import run_impl, model_view  # noqa: F401
+import directed
 
 DESCRIPTION = ("Lean: Props/C05.lean (resolved keyword arguments agree with CPython's binding for every non-variadic "
                "parameter of every well-formed signature and every accepted call; _ARGS/_KWARGS; missing names). "
@@ -24,6 +25,8 @@ EXHAUSTIVE_STREAM = True
 KINDS = ["posOnly", "posOrKw", "varPos", "kwOnly", "varKw"]
 RANK = dict((k, i) for i, k in enumerate(KINDS))
 NAMES = ["a", "b", "c", "d", "e", "f", "g", "h"]
+NEIGHBOURS = [{"from": "C08", "limit": 400, "why": "captures receive the call's argument values"},
+              {"from": "C09", "limit": 400, "why": "error factories receive the call's argument values"}]
 
 
 def signatures(n):
@@ -87,6 +90,9 @@ def make_case(sig, args, kwargs, rng, kind="function", async_=False):
     lv["pre"].append(genck.contract(2, sub, err={"cls": {"subBase": True, "truthy": True}}))
     if nonvar:
         lv["snaps"].append(genck.snapshot(1, "s1", rng.sample(nonvar, min(len(nonvar), rng.randint(1, 2)))))
+    if len(nonvar) >= 2:
+        # (even id: the capture's parameters after the first have defaults of their own - the call's values must win)
+        lv["snaps"].append(genck.snapshot(2, "s2", rng.sample(nonvar, min(len(nonvar), rng.randint(2, 3)))))
     fsub = rng.sample(nonvar, min(len(nonvar), rng.randint(0, 3))) + rng.sample(["_ARGS", "_KWARGS", "result", "OLD"], 2)
     if not lv["snaps"]:
         fsub = [x for x in fsub if x != "OLD"]
@@ -95,8 +101,13 @@ def make_case(sig, args, kwargs, rng, kind="function", async_=False):
     return genck.fill_oracle_defaults(case)
 
 
+run_directed = directed.run
+
+
 def cases(tier, rng):
     thorough = tier == "thorough"
+    for c in directed.shared_decorator_cases():
+        yield "directed-shared-contract", c
     import inspect as _i  # noqa
     for n in range(0, (4 if thorough else 3) + 1):
         for sig in signatures(n):
